@@ -2,13 +2,15 @@
   Specification side of C20: an independent reader of the printed bound
   expression (what a user would understand by it) and the value the property
   says it must denote.  Grammar:  e := t ('+' t)* ;  t := f ('*' f)* ;
-  f := '0' | identifier | 'max(' e (',' e)* ')'.
+  f := numeral | identifier | 'max(' e (',' e)* ')'.
+  A numeral denotes its value (a reader that took `1` for an unknown name worth 0 would accept `1` where
+  the property demands 0).
 -/
 import Mwp.Base
 namespace Mwp.Spec.BoundText
 
 inductive Tok where
-  | id (s : String) | zero | plus | star | comma | lpar | rpar | max
+  | id (s : String) | num (n : Nat) | plus | star | comma | lpar | rpar | max
   deriving DecidableEq, Repr
 
 def isIdChar (c : Char) : Bool := c.isAlphanum || c == '_'
@@ -32,7 +34,7 @@ where
     if cur.isEmpty then acc
     else
       let s := String.ofList cur.reverse
-      if s == "0" then .zero :: acc else if s == "max" then .max :: acc else .id s :: acc
+      if s.all Char.isDigit then .num s.toNat! :: acc else if s == "max" then .max :: acc else .id s :: acc
 
 def lex (s : String) : Option (List Tok) := lexAux s.toList [] []
 
@@ -52,7 +54,7 @@ where
     | 0, _ => none
     | fuel + 1, ts =>
       match ts with
-      | .zero :: r => some (0, r)
+      | .num n :: r => some (n, r)
       | .id s :: r => some (ρ s, r)
       | .max :: .lpar :: r => do
         let (v, rest) ← parseE ρ fuel r
